@@ -99,9 +99,10 @@ class Senders:
     """N tasks each sending its packets in sequence through `send(packet)`; cancels delivered only to
     senders parked in the lock (the property says nothing about a send cancelled half-way)"""
 
-    def __init__(self, case: dict, trace: env.Trace, send, parked) -> None:
+    def __init__(self, case: dict, trace: env.Trace, send, parked, on_started=None) -> None:
         self.case, self.trace, self.send, self.parked = case, trace, send, parked
         self.tasks: dict[str, asyncio.Task] = {}
+        self.on_started = on_started        # called once the sender tasks exist (C12/TLS: readers created after the senders)
 
     async def _one(self, name: str, s: dict) -> None:
         spec = self.case["spec"]
@@ -136,6 +137,8 @@ class Senders:
         for i in order:
             name = f"s{i}"
             self.tasks[name] = loop.create_task(self._one(name, self.case["senders"][i]), name=name)
+        if self.on_started is not None:
+            self.on_started()
         for i, when in self.case.get("cancels", []):
             loop.call_at(float(when), self._maybe_cancel, f"s{i}")
         await asyncio.gather(*self.tasks.values())
